@@ -21,4 +21,16 @@ var metas = map[string]*meta{
 		Rule: "C07's 22-op alphabet plus `reopen` (drop the Store, file.New on the same path) and `retention-scan` on the file store with cap∈{0,2}: all sequences to the full-tree depth, explicit-state search beyond; reopen is the identity on the model; after every last op the concrete ids, order, metadata, seen flags, sizes, dates and bytes of every mailbox (by name and through VisitMailboxes) must equal the model's. Non-trivial = last op changed state or was a reopen; distinct sequences.",
 		Assumptions: []string{"restart = constructing a new file.Store on the same directory (the store keeps no state outside it except the process-global id counter)"},
 	},
+	"C01": {
+		ID: "C01", Level: "exploration",
+		Parts: []part{{Name: "seq", Bin: "std", Shards: 16}},
+		Rule: "every connection script: transaction 1 = MAIL + every sequence (with repetition) of ≤2 (quick) / ≤3 (thorough) RCPTs from {a@keep, A+x@keep (same mailbox), b@keep, a@drop (discard domain), b@rej (rejected domain), malformed} + one of 8 terminators (DATA with/without headers, RSET, EHLO, nested MAIL, QUIT, disconnect, DATA then disconnect before the final dot), followed by a second (and in thorough a third) transaction from a reduced set; × naming∈{local,full,domain} × store policy∈{store-default+discard list, discard-default+store list} × backend∈{mem,file}. After every transaction end ALL mailboxes (and a visit for stray ones) are compared with the model: one new message per accepted, storable recipient occurrence with the right sender/recipients/subject/size/content, everything else unchanged. Non-trivial = at least one message was delivered; distinct scripts.",
+		Assumptions: []string{"recipient acceptance is read off the reply class of each RCPT", "mailbox names for the plain addresses of this pool follow model.SimpleMailbox (documented rule)", "From/To headers are generated equal to the envelope so the expected metadata is unambiguous"},
+	},
+	"C03": {
+		ID: "C03", Level: "exploration",
+		Parts: []part{{Name: "seq", Bin: "syn", Shards: 16}, {Name: "cut", Bin: "syn", Shards: 8}},
+		Rule: "seq: every sequence of command lines over a 26-element alphabet (HELO/EHLO variants, MAIL variants incl. SIZE and <>, RCPT variants incl. rejected and malformed, DATA, DATA with argument, a 4-line message unit ending in '.', RSET, NOOP, VRFY, QUIT, AUTH PLAIN, AUTH LOGIN, STARTTLS, empty line, short garbage, a 10000-byte line, binary bytes) to the full-tree depth, then explicit-state search keyed on (envelope model state folded from the observed replies, store listing, last command) to the max depth; each session runs in a testing/synctest bubble so 'no reply', 'extra reply' and 'session never ends' are decided by exact quiescence; oracle: one well-formed reply per command line, MAIL/RCPT/DATA gating, store = deliveries to the recipients accepted since the latest accepted MAIL. cut: see clause. Non-trivial = last command was accepted (2xx) or delivered; distinct sequences.",
+		Assumptions: []string{"replies the statement leaves open are not pinned: the model derives its next state from the observed reply class", "net.Pipe stands for the TCP connection; testing/synctest's notion of durably blocked is trusted", "built with go1.26.8 (testing/synctest); the baseline suite runs on go1.23.5"},
+	},
 }
